@@ -50,6 +50,7 @@ class Backend:
         self.prune_children = cfg.get("prune_children", False)
         self.timer_lag = cfg.get("timer_lag", 0.0)
         self.api_latency = cfg.get("api_latency", 0.0)
+        self.slow_calls = cfg.get("slow_calls") or {}  # {"<inv>:<api index>": seconds} - a brown-out of single calls
         self.empty_page_at = cfg.get("empty_page_at")  # insert an empty page (with a marker) after that many pages
         self.arn = "arn:aws:lambda:us-east-1:123456789012:durable-execution:sim"
         self.now = cfg.get("t0", 1_800_000_000.0)
@@ -509,8 +510,9 @@ class FakeBoto:
             b.fire_due(s.now)
         if self.hooks and self.hooks.get("before_api"):
             self.hooks["before_api"](self, rec)
-        if s is not None and b.api_latency:
-            s.sleep(b.api_latency)  # the call is in flight: other tasks run meanwhile
+        lat = b.api_latency + (b.slow_calls.get(f"{self.inv}:{idx}", 0.0) if b.slow_calls else 0.0)
+        if s is not None and lat:
+            s.sleep(lat)  # the call is in flight: other tasks run meanwhile
             b.fire_due(s.now)
         if self._crash(idx, "api_before"):
             rec["crashed"] = "before"
